@@ -180,7 +180,7 @@ class NetSim:
         self.plan = plan
         cfg = plan["config"]
         self.cfg = cfg
-        self.kernel = Kernel(cfg.get("t0_us", DEFAULT_T0_US), max_events=cfg.get("max_events", 50_000))
+        self.kernel = Kernel(cfg.get("t0_us", DEFAULT_T0_US), max_events=cfg.get("max_events", 20_000))
         self.hist = Hist()
         self.faults: dict[str, int] = {}
         self.probes: dict[str, int] = {}
